@@ -137,7 +137,7 @@ BOUNDED = {
 BOUNDED['C05'] = BOUNDED['C05'] + [{'name': 'temporal-extremes-and-iteration-answer', 'script': 'feeltotal.py', 'args': [],
     'functions': ['FeelIterator::run (through for / some / every)', 'temporal::get_zone_offset / compare / subtract', 'FeelYearsAndMonthsDuration / FeelDaysAndTimeDuration literals and arithmetic', 'core::time_3 / time_4 / date_3',
                   'date and date-time arithmetic at the ends of the year range'],
-    'bound': '7699 generated expressions, each must answer (value or error) within 10 s, no panic: for / some / every over 1..3 iteration contexts of lists, ascending, descending and empty ranges; date-and-time / time values of six named zones '
+    'bound': '7735 generated expressions, each must answer (value or error) within 10 s, no panic (the last 36 - every nesting construct nested 50 and 200 times in itself, and long literals - each in its own driver process, so that a stack overflow is seen as an aborted process): for / some / every over 1..3 iteration contexts of lists, ascending, descending and empty ranges; date-and-time / time values of six named zones '
              'at every half hour around their daylight-saving transitions (non-existent and ambiguous local times included) compared, subtracted, rendered, shifted; duration literals with 1..20-digit components and the largest valid ones, '
              'negated, added, multiplied, divided, rendered; time(h, m, s, offset) with 22 offsets up to the i32 limits; date / time / duration constructors with 14 extreme numbers; fractional and repeating-decimal time / date components'}]
 BOUNDED['C08'] = [b for b in BOUNDED['C05'] if b['name'] == 'string-search-builtins'] + [{'name': 'boolean-list-builtins', 'script': 'boolbif.py', 'args': [], 'functions': ['core::all', 'core::any'],
